@@ -15,12 +15,12 @@ open PQ PQ.Src PQ.SrcGen
 variable {P : Type} [LT P] [DecidableLT P]
 
 theorem call_storeSwapRemove (s : Store P) (pos n : Nat) :
-    callWith (exec prog (n + 1)) prog .storeSwapRemove s [pos] []
+    callWith (exec prog (n + 1)) prog .storeSwapRemove s [pos] [] []
       = (fun r => (r.1, Val.optEntry r.2)) <$> s.swapRemove pos :=
   storeSwapRemove s pos (n + 1) (by omega)
 
 theorem call_storeRemove (s : Store P) (k n : Nat) :
-    callWith (exec prog (n + 1)) prog .storeRemove s [k] []
+    callWith (exec prog (n + 1)) prog .storeRemove s [k] [] []
       = (fun r => (r.1, Val.optRemoved r.2)) <$> s.remove k :=
   storeRemove s k (n + 1) (by omega)
 
@@ -67,11 +67,11 @@ theorem dqFindMin (s : Store P) (fuel : Nat) (h : fuel ≥ 1) :
   · src_eval [dqFindMin_body, h0]
 
 theorem call_dqFindMin (s : Store P) (n : Nat) :
-    callWith (exec prog (n + 1)) prog .dqFindMin s [] [] = pure (s, Val.optNat (DQ.findMin s)) :=
+    callWith (exec prog (n + 1)) prog .dqFindMin s [] [] [] = pure (s, Val.optNat (DQ.findMin s)) :=
   dqFindMin s (n + 1) (by omega)
 
 theorem call_dqFindMax (s : Store P) (n : Nat) :
-    callWith (exec prog (n + 2)) prog .dqFindMax s [] [] = (fun r => (r.1, Val.optNat r.2)) <$> DQ.findMax s :=
+    callWith (exec prog (n + 2)) prog .dqFindMax s [] [] [] = (fun r => (r.1, Val.optNat r.2)) <$> DQ.findMax s :=
   dqFindMax s (n + 2) (by omega)
 
 /-! ## `PriorityQueue::pop` -/
@@ -98,8 +98,8 @@ theorem pqPop (s : Store P) (fuel : Nat) (h : fuel ≥ s.size + 3) :
 
 /-! ## `PriorityQueue::remove` -/
 
-theorem call_pqUpHeapify (s : Store P) (i n : Nat) (h : n ≥ s.size + i + 3) :
-    callWith (exec prog n) prog .pqUpHeapify s [i] [] = (fun s' => (s', Val.unit)) <$> MaxQ.upHeapify s i :=
+theorem call_pqUpHeapify (s : Store P) (i n : Nat) (h : n ≥ s.size + min i s.heap.size + 3) :
+    callWith (exec prog n) prog .pqUpHeapify s [i] [] [] = (fun s' => (s', Val.unit)) <$> MaxQ.upHeapify s i :=
   pqUpHeapify s i n h
 
 /-- `PriorityQueue::remove` = `MaxQ.remove` -/
@@ -170,8 +170,8 @@ theorem dqPopMax (s : Store P) (fuel : Nat) (h : fuel ≥ s.size + 4) :
     rw [call_dqHeapify _ _ _ (by simp only at hsz; omega)]
     src_eval
 
-theorem call_dqUpHeapify (s : Store P) (i n : Nat) (h : n ≥ s.size + i + 4) :
-    callWith (exec prog n) prog .dqUpHeapify s [i] [] = (fun s' => (s', Val.unit)) <$> DQ.upHeapify s i :=
+theorem call_dqUpHeapify (s : Store P) (i n : Nat) (h : n ≥ s.size + min i s.heap.size + 4) :
+    callWith (exec prog n) prog .dqUpHeapify s [i] [] [] = (fun s' => (s', Val.unit)) <$> DQ.upHeapify s i :=
   dqUpHeapify s i n h
 
 /-- `DoublePriorityQueue::remove` = `DQ.remove` -/
